@@ -69,6 +69,10 @@ func (s *PSlice) Add(addrs ...boson.Address) {
 		}
 
 		po := addrPo[i]
+		// the batch itself may name a peer more than once
+		if e, _ := s.index(addr, po); e {
+			continue
+		}
 		s.peers[po] = append(s.peers[po], addr)
 	}
 }
